@@ -142,6 +142,19 @@ def run(F, chk):
             rc.ok(key, b.where(bi), "tracking only on the cluster_ip_at_limit()==false edge")
         else:
             rc.violation(key, b.where(bi), "track_cluster_ip reachable without passing the cluster_ip_at_limit()==false edge")
+    # acquire => record the release obligation on every exit (TCP sessions release only when the flag is set)
+    TS = "sozu_lib::tcp::TcpSession"
+    for b, bi, t in F.call_sites(SM + "::track_cluster_ip"):
+        if not b.path.startswith(TS + "::"):
+            continue
+        flag_writes = [x for x, si, s in b.stmts() if "lhs" in s and not isinstance(s["lhs"], int)
+                       and any(f == "cluster_ip_tracked" for _, _, f in proj_fields(s["lhs"]))]
+        key = "%s|track => cluster_ip_tracked on every exit" % b.path
+        cut = b.reach_from([t["to"]], removed=flag_writes)
+        if flag_writes and not [r for r in b.returns() if r in cut]:
+            rc.ok(key, b.where(bi), "every path from track_cluster_ip to a return records cluster_ip_tracked")
+        else:
+            rc.violation(key, b.where(bi), "a path tracks the (cluster, ip) slot and returns (e.g. through `?`) before cluster_ip_tracked is recorded: close() then skips untrack_all_cluster_ip and the slot leaks")
     # ---------------- R-C16-d ------------------------------------------------
     rd = chk.rule("R-C16-d", "T4", "RAII return of buffers: Drop for Checkout, no forget/leak on resource holders", floor=2)
     drops = [im for im in F.impls if im["trait"] == "core::ops::drop::Drop" and "pool::Checkout" in im["self_ty"]]
